@@ -1275,9 +1275,10 @@ def obliterate(base: Dict[str, Any], deletions: Dict[str, Any]) -> None:
     """
     for key, value in deletions.items():
         if isinstance(value, dict):
-            # NOTE: not testing for whether base[key] exists; if something's
-            # listed in a deletions structure, it must exist in some source
-            # somewhere, and thus also in the cache being obliterated.
-            obliterate(base[key], deletions[key])
+            # NOTE: a deletion may outlive the data it masked (e.g. a lower
+            # level got reloaded without that key), so only descend into
+            # sections which (still) exist in the cache being obliterated.
+            if isinstance(base.get(key), dict):
+                obliterate(base[key], deletions[key])
         else:  # implicitly None
-            del base[key]
+            base.pop(key, None)
